@@ -1,8 +1,55 @@
+import operator
 from .nodes import types, expressions, declarations
+
+
+def logical_not(x):
+    """The C '!' operator."""
+    return int(not x)
+
+
+def int_div(x, y):
+    """Integer division, truncating towards zero like C does."""
+    quotient = abs(x) // abs(y)
+    return quotient if (x < 0) == (y < 0) else -quotient
+
+
+def int_rem(x, y):
+    """Remainder of the truncating integer division."""
+    return x - y * int_div(x, y)
 
 
 class ConstantExpressionEvaluator:
     """Class which is capable of evaluating expressions."""
+
+    # Operators on values of any arithmetic type:
+    unary_operators = {
+        "-": operator.neg,
+        "~": operator.invert,
+        "!": logical_not,
+    }
+
+    binary_operators = {
+        "+": operator.add,
+        "-": operator.sub,
+        "*": operator.mul,
+        "<": operator.lt,
+        ">": operator.gt,
+        "<=": operator.le,
+        ">=": operator.ge,
+        "==": operator.eq,
+        "!=": operator.ne,
+    }
+
+    # Operators for integer typed expressions:
+    integer_operators = {
+        "/": int_div,
+        "%": int_rem,
+        ">>": operator.rshift,
+        "<<": operator.lshift,
+        "|": operator.or_,
+        "&": operator.and_,
+        "^": operator.xor,
+    }
 
     def __init__(self, context):
         self.context = context
@@ -13,6 +60,8 @@ class ConstantExpressionEvaluator:
             value = self.eval_binop(expr)
         elif isinstance(expr, expressions.UnaryOperator):
             value = self.eval_unop(expr)
+        elif isinstance(expr, expressions.TernaryOperator):
+            value = self.eval_ternop(expr)
         elif isinstance(expr, expressions.VariableAccess):
             value = self.eval_variable_access(expr)
         elif isinstance(expr, expressions.NumericLiteral):
@@ -73,22 +122,24 @@ class ConstantExpressionEvaluator:
 
         # do some real casting:
         if expr.typ.is_integer:
-            value = int(value)
+            value = self.context.to_integer_type(expr.typ, int(value))
         elif expr.typ.is_float or expr.typ.is_double:
             value = float(value)
         else:
             pass
         return value
 
+    def fit(self, typ, value):
+        """Bring the result of an operator into the range of its type."""
+        if typ.is_integer:
+            value = self.context.to_integer_type(typ, int(value))
+        return value
+
     def eval_unop(self, expr):
         """Evaluate unary operation."""
-        if expr.op in ["-", "~"]:
+        if expr.op in self.unary_operators:
             a = self.eval_expr(expr.a)
-            op_map = {
-                "-": lambda x: -x,
-                "~": lambda x: ~x,
-            }
-            value = op_map[expr.op](a)
+            value = self.fit(expr.typ, self.unary_operators[expr.op](a))
         elif expr.op == "&":
             value = self.eval_take_address(expr.a)
         else:  # pragma: no cover
@@ -100,26 +151,48 @@ class ConstantExpressionEvaluator:
 
     def eval_binop(self, expr):
         """Evaluate binary operator."""
-        lhs = self.eval_expr(expr.a)
-        rhs = self.eval_expr(expr.b)
         op = expr.op
 
-        op_map = {
-            "+": lambda x, y: x + y,
-            "-": lambda x, y: x - y,
-            "*": lambda x, y: x * y,
-        }
+        # The right hand side of '&&' and '||' is only evaluated when the
+        # left hand side does not decide the outcome:
+        if op == "&&":
+            return int(bool(self.eval_expr(expr.a) and self.eval_expr(expr.b)))
+        elif op == "||":
+            return int(bool(self.eval_expr(expr.a) or self.eval_expr(expr.b)))
 
-        # Ensure division is integer division:
-        if expr.typ.is_integer:
-            op_map["/"] = lambda x, y: x // y
-            op_map[">>"] = lambda x, y: x >> y
-            op_map["<<"] = lambda x, y: x << y
-            op_map["|"] = lambda x, y: x | y
-            op_map["&"] = lambda x, y: x & y
-            op_map["^"] = lambda x, y: x ^ y
+        lhs = self.eval_expr(expr.a)
+        rhs = self.eval_expr(expr.b)
+
+        if op in self.binary_operators:
+            func = self.binary_operators[op]
+        elif op in self.integer_operators and expr.typ.is_integer:
+            func = self.integer_operators[op]
+            if op in ["/", "%"] and rhs == 0:
+                self.context.error(
+                    "Division by zero in constant expression", expr.location
+                )
+            elif op in ["<<", ">>"]:
+                if rhs < 0:
+                    self.context.error(
+                        "Negative shift count in constant expression",
+                        expr.location,
+                    )
+                # Shifting by the width of the type moves out all bits:
+                rhs = min(rhs, 8 * self.context.sizeof(expr.typ))
+        elif op == "/":
+            func = operator.truediv
         else:
-            op_map["/"] = lambda x, y: x / y
+            self.context.error(
+                f"Operator '{op}' not allowed in constant expression",
+                expr.location,
+            )
 
-        value = op_map[op](lhs, rhs)
-        return value
+        return self.fit(expr.typ, func(lhs, rhs))
+
+    def eval_ternop(self, expr):
+        """Evaluate the ternary operator a ? b : c."""
+        if self.eval_expr(expr.a):
+            value = self.eval_expr(expr.b)
+        else:
+            value = self.eval_expr(expr.c)
+        return self.fit(expr.typ, value)
